@@ -382,6 +382,44 @@ func schedListVsSync(res *core.Result, r *core.RNG) error {
 			stuck = true
 		}
 	}
+	// several announcements of ONE new key in flight together (different ports, all validly signed):
+	// the key gets exactly one entry
+	for round := 0; round < 6 && !stuck; round++ {
+		k := srv.DetKey(r).Pub
+		var pw sync.WaitGroup
+		start := make(chan struct{})
+		for g := 0; g < 8; g++ {
+			as := server.AuthorizedServer{PublicKey: k, Location: "127.0.0.1", HttpPort: 9, TcpPort: uint16(1000 + g), UdpPort: uint16(r.Range(1, 65535))}
+			as.GCAAuthorization = glow.Sign(as.SigningBytes(), s.a.GCA.Priv)
+			j, _ := json.Marshal(as)
+			pw.Add(1)
+			go func() {
+				defer pw.Done()
+				<-start
+				w.Raw("POST", "/api/v1/authorized-servers", j)
+			}()
+		}
+		close(start)
+		pw.Wait()
+	}
+	if rr := w.Raw("GET", "/api/v1/authorized-servers", nil); rr.Status == 200 {
+		var resp struct{ AuthorizedServers []server.AuthorizedServer }
+		if json.Unmarshal(rr.Body, &resp) == nil {
+			seen := map[glow.PublicKey]int{}
+			for _, e := range resp.AuthorizedServers {
+				seen[e.PublicKey]++
+			}
+			for k, n := range seen {
+				if n > 1 {
+					s.fail(fmt.Sprintf("after simultaneous announcements of one new server key the list holds %d entries for it (%x...)", n, k[:6]), "server-list-duplicate-key")
+					break
+				}
+			}
+			if len(seen) < 6 {
+				s.fail("the list of authorized servers could not be read back", "c13-list-setup")
+			}
+		}
+	}
 	atomic.StoreInt32(&stop, 1)
 	res.Count("sched.list-vs-sync")
 	probe := make(chan bool, 1)
